@@ -2,6 +2,7 @@ package client
 
 import (
 	"fmt"
+	"sync"
 	"time"
 
 	pkts "github.com/energomonitor/bisquitt/packets"
@@ -23,6 +24,9 @@ type sleepTransaction struct {
 	sleepDuration       time.Duration
 	state               transactionState
 	timer               *time.Timer
+	// disconnectMutex serializes Sleep, the DISCONNECT retry timer and the
+	// handling of the gateway's DISCONNECT.
+	disconnectMutex sync.Mutex
 }
 
 func newSleepTransaction(client *Client, sleepDuration time.Duration) *sleepTransaction {
@@ -66,6 +70,8 @@ func (t *sleepTransaction) Sleep() error {
 	state := t.client.state.Get()
 	switch state {
 	case util.StateActive:
+		t.disconnectMutex.Lock()
+		defer t.disconnectMutex.Unlock()
 		duration := uint16(t.sleepDuration / time.Second)
 		t.disconnect = pkts1.NewDisconnect(duration)
 		t.state = awaitingDisconnect
@@ -83,6 +89,13 @@ func (t *sleepTransaction) Sleep() error {
 }
 
 func (t *sleepTransaction) resendDisconnect() {
+	t.disconnectMutex.Lock()
+	defer t.disconnectMutex.Unlock()
+	// The timer could have fired just before the gateway's DISCONNECT was
+	// handled => nothing to resend anymore.
+	if t.disconnect == nil {
+		return
+	}
 	t.disconnectResendNum++
 	if t.disconnectResendNum > t.retryCount {
 		t.log.Debug("DISCONNECT reply timeout.")
@@ -98,6 +111,8 @@ func (t *sleepTransaction) resendDisconnect() {
 }
 
 func (t *sleepTransaction) Disconnect(disconnect *pkts1.Disconnect) {
+	t.disconnectMutex.Lock()
+	defer t.disconnectMutex.Unlock()
 	if t.state != awaitingDisconnect {
 		t.log.Debug("Unexpected packet in %d: %v", t.state, disconnect)
 		return
